@@ -79,6 +79,7 @@ class SpecMon(Monitor):
         self.phase = "start-line" if kind in ("request", "response") else ("headers" if kind == "headers" else "chunk")
         self.nconsumed = 0
         self.slotq = None
+        self.last_end = None  # end of the most recently stored buffer slice (C04 ordering)
 
     def clone(self):
         c = SpecMon.__new__(SpecMon)
@@ -92,7 +93,8 @@ class SpecMon(Monitor):
 
     def key(self):
         return (self.q, tuple(sorted(self.marks.items())), tuple(sorted(self.exp.items())), tuple(sorted(self.got.items())), self.pend,
-                self.nstored, self.verdict, tuple(sorted(self.vals.items())), tuple(sorted(self.flags.items())), self.phase, min(self.nconsumed, 1))
+                self.nstored, self.verdict, tuple(sorted(self.vals.items())), tuple(sorted(self.flags.items())), self.phase, min(self.nconsumed, 1),
+                self.last_end)
 
     # ---- plumbing ---------------------------------------------------------------------------
     def map_values(self, fv, floc):
@@ -101,6 +103,8 @@ class SpecMon(Monitor):
         if self.pend is not None:
             self.pend = tuple(floc(x) if isinstance(x, tuple) and x and x[0] == "B" else x for x in self.pend)
         self.nstored = fv(self.nstored)
+        if self.last_end is not None:
+            self.last_end = floc(self.last_end)
         self.vals = {k: fv(v) for k, v in self.vals.items()}
         if self.verdict is not None and self.verdict[0] == "complete":
             self.verdict = ("complete", floc(self.verdict[1]))
@@ -110,7 +114,7 @@ class SpecMon(Monitor):
 
     def symbols(self):
         out = set()
-        for loc in list(self.marks.values()) + ([self.verdict[1]] if self.verdict and self.verdict[0] == "complete" else []):
+        for loc in list(self.marks.values()) + ([self.verdict[1]] if self.verdict and self.verdict[0] == "complete" else []) + ([self.last_end] if self.last_end else []):
             for s, c in loc[1]:
                 out.add(s)
         for e in self.exp.values():
@@ -761,12 +765,41 @@ class SpecMon(Monitor):
             self.bad(m, st, "field", "field %s stored before the reference has delimited it (state %s)" % (f, self.q[0]))
         if f in self.got:
             self.bad(m, st, "field", "field %s stored twice" % f)
+        self.check_zero_copy(m, st, f, inner)
         self.check_hygiene(m, st, f, inner)
         self.check_value(m, st, f, e, inner)
         self.got[f] = True
         self.exp[f] = ("done",)
         if e[0] == "val":
             self.vals.pop(e[1], None)
+
+    def check_zero_copy(self, m, st, f, v):
+        """C04 on the slice the implementation hands out: inside the buffer, after the previous
+        one, not beyond what has been consumed."""
+        if v[0] != "fat":
+            return
+        if v[2][0] == "int" and v[2][1] == 0:
+            return  # zero-length values may live anywhere
+        if v[1][0] != "B":
+            m.violate(st, "zero-copy:not-in-buffer", "%s is a non-empty slice that does not point into the caller's buffer (%s)" % (
+                f, "static data" if v[1][0] in ("A", "K", "S") else v[1][0]))
+        ln = v[2]
+        if v[3] is not None and v[3][0] == "trim" and v[3][1] in st.rsyms:
+            ln = st.rsyms[v[3][1]][2]  # a trimmed slice ends no later than the region it was trimmed from
+        t, c = sym_of(ln)
+        end = ("B",) + self.loc_add(v[1], t, c)
+        r = st.rel_pos(end[1], end[2])
+        if r is None or r[2] != 1 or r[1] is None or r[1] > 0:
+            m.violate(st, "zero-copy:beyond-consumed", "%s may extend beyond the bytes consumed so far" % f)
+        if self.last_end is not None:
+            d = sym_norm(list(v[1][1]) + [(s_, -c_) for s_, c_ in self.last_end[1]], v[1][2] - self.last_end[2], 0, True)
+            ok = d[0] == "int" and d[1] >= 0
+            if d[0] != "int":
+                r2 = st.rel_pos(d[1], d[2])
+                ok = r2 is not None and r2[0] is not None and r2[0] >= 0
+            if not ok:
+                m.violate(st, "zero-copy:order", "%s starts before the end of the previously reported slice" % f)
+        self.last_end = end
 
     def check_hygiene(self, m, st, f, v, fold=False):
         """C05 on the value the implementation hands out (its own region summary), not on the
@@ -909,6 +942,8 @@ class SpecMon(Monitor):
         if h[0] != "agg" or len(h[1]) != 2:
             self.bad(m, st, "slot", "header slot receives something that is not a Header")
         name, value = h[1]
+        self.check_zero_copy(m, st, "header name", name)
+        self.check_zero_copy(m, st, "header value", value)
         self.check_hygiene(m, st, "header name", name)
         self.check_hygiene(m, st, "header value", value, fold=self.opt(m, st, "fold"))
         ns, ne, vs, ve, started = self.pend
